@@ -376,8 +376,10 @@ Definition swap_edge (n : N) (ks : kinds) (e : N) : prog unit :=
   vid_a <- vertex_id_tx n l ;; vid_b <- vertex_id_tx n r ;;
   vid_c <- vertex_id_tx n b0l ;; vid_d <- vertex_id_tx n b0r ;;
   va <- rdV vid_a ;; vb <- rdV vid_b ;; vc <- rdV vid_c ;; vd <- rdV vid_d ;;
-  aa <- opt_anchor ks KVA (rdA KVA vid_a) ;; ab <- opt_anchor ks KVA (rdA KVA vid_b) ;;
-  ac <- opt_anchor ks KVA (rdA KVA vid_c) ;; ad <- opt_anchor ks KVA (rdA KVA vid_d) ;;
+  anchors <- (if has_kind ks KVA
+              then aa <- rdA KVA vid_a ;; ab <- rdA KVA vid_b ;; ac <- rdA KVA vid_c ;; ad <- rdA KVA vid_d ;;
+                   Ret (Some (aa, ab, ac, ad))
+              else Ret None) ;;
   one_unsew n ks l ;;; one_unsew n ks r ;;;
   one_unsew n ks b0l ;;; one_unsew n ks b0r ;;;
   one_unsew n ks b1l ;;; one_unsew n ks b1r ;;;
@@ -385,9 +387,11 @@ Definition swap_edge (n : N) (ks : kinds) (e : N) : prog unit :=
   one_sew n ks r b0l ;;; one_sew n ks b0l b1r ;;; one_sew n ks b1r r ;;;
   (* the corners are put back under the new vertex ids *)
   restore_vertex n b1r va ;;; restore_vertex n b1l vb ;;; restore_vertex n l vc ;;; restore_vertex n r vd ;;;
-  if has_kind ks KVA then
+  match anchors with
+  | Some (aa, ab, ac, ad) =>
     restore_anchor n b1r aa ;;; restore_anchor n b1l ab ;;; restore_anchor n l ac ;;; restore_anchor n r ad
-  else Ret tt.
+  | None => Ret tt
+  end.
 
 (** ** remeshing/cut.rs *)
 
